@@ -2353,6 +2353,8 @@ class Engine:
                 _, m, fty = field_map(s, "LineFile", "g_lines")
                 lst = unpack(fty, z3.simplify(m[linefile.z]))
                 self.note_list(s, lst)
+            if isinstance(lst.ty, TSet):
+                lst = self.set_iteration_order(s, lst, hid)
             if isinstance(lst.ty, TOpt) and isinstance(lst.ty.inner, TList):
                 S = lst.ty.sort()
                 self.guard(s, exc0, "TypeError", lst.z != S.none, "iteration over None", stmt.lineno)
@@ -2387,6 +2389,27 @@ class Engine:
 
             outs.extend(self.cut_loop(stmt, s, ordinal, spec, head, advance, stmt.body, hidden=[hid]))
         return outs + exc0
+
+    def set_iteration_order(self, s, sv, hid):
+        """Iterating a set: some list of its elements, each exactly once, in an order nothing is known about.  The
+        position of an element in that order is a function `pos` (kept as the python-side local `<counter>_pos` for
+        specifications): pos(x) is the index at which x is handed out, for every x in the set."""
+        ety = sv.ty.elem
+        _, has = set_maps(s, ety)
+        size = s.hmap(f"SSZ.{sort_key(ety)}", smt.Int, smt.Int)[sv.z]
+        new = s.new_ref()
+        arr = smt.fresh("setorder", z3.ArraySort(smt.Int, ety.sort()))
+        n = smt.fresh("nset", smt.Int)
+        pos = z3.Function(f"setpos!{smt._fresh_n[0]}", ety.sort(), smt.Int)
+        smt._fresh_n[0] += 1
+        set_list(s, ety, new, arr=arr, lo=z3.IntVal(0), hi=n)
+        k = smt.fresh("k", smt.Int)
+        x = z3.Const(f"x!set{smt._fresh_n[0]}", ety.sort())
+        s.assume(z3.And(n >= 0, n == size))
+        s.assume(z3.ForAll([k], z3.Implies(z3.And(0 <= k, k < n), z3.And(has[sv.z][arr[k]], pos(arr[k]) == k)), patterns=[arr[k]]))
+        s.assume(z3.ForAll([x], z3.Implies(has[sv.z][x], z3.And(0 <= pos(x), pos(x) < n, arr[pos(x)] == x)), patterns=[pos(x)]))
+        s.assign(hid + "_pos", Val(TConst(), ("setpos", pos)))
+        return Val(TList(ety), new)
 
     def for_zip(self, stmt, st, ordinal, spec, hid):
         """for a, b in zip(xs, ys[, strict=True]): pairs of elements with the same index, as many as the shorter
